@@ -177,8 +177,12 @@ CLAIMED = {
              "Incomplete (or Invalid without message) inserts one line break at the cursor and continues; Invalid with a message "
              "leaves text and cursor unchanged and writes the message; a validator error is the result of the read. Over whole "
              "reads (induction on the main loop, any input): a read that returns ended on a Submit, only the accept commands can "
-             "produce one, and through Enter the returned text is the validated text. Tied to /repo by the validate stream and a "
-             "decision-table oracle recomputing the verdict from the observed text at every Enter.",
+             "produce one, and through Enter the returned text is the validated text. Non-terminal input (readline_direct), for "
+             "every validator function and input stream: only strings the validator accepts are returned, a validator error is "
+             "the read's result as an error (the next read starts afresh), Invalid returns nothing and keeps the text. Tied to "
+             "/repo by the validate stream with a decision-table oracle recomputing the verdict from the observed text at every "
+             "Enter, and by the direct-validate stream (stdin a pipe; bracket matcher and a scripted validator with every "
+             "verdict, errors included).",
         note=TTY_NOTE + "AcceptLine via custom binding and vi C-d bypass validation by design (stated in the theorem).",
         technique="Coq proof: symbolic execution of the editor monad per verdict; induction over the main loop's fuel; extracted-model differential check through a pty + decision-table oracle"),
     "C03": dict(
